@@ -18,7 +18,7 @@ import (
 type VerifFlightEditor func(state dtlsstate.Active, flight string, pkts []*dtlsflight.Packet) []*dtlsflight.Packet
 
 var (
-	verifEditorsMu sync.Mutex                                    //nolint:gochecknoglobals
+	verifEditorsMu sync.Mutex                                  //nolint:gochecknoglobals
 	verifEditors   = map[*dtlsstate.Common]VerifFlightEditor{} //nolint:gochecknoglobals
 )
 
